@@ -26,5 +26,15 @@ for d in sorted(glob.glob('/verif/seeded/*/')):
     needs = (m.get('needs_to_manifest') or m.get('what_breaks') or '')
     needs = re.sub(r'\s+', ' ', needs)[:230]
     rows.append("| %s | %s | %s | %s | %s |" % (name, needs.replace('|', '/'), ", ".join(caught) or "-", ", ".join(missed) or "-", NOTES.get(name, "caught as built")))
-print("| seeded change | needs to manifest | caught by | run, silent | note |\n|---|---|---|---|---|")
-print("\n".join(rows))
+table = "| seeded change | needs to manifest | caught by | run, silent | note |\n|---|---|---|---|---|\n" + "\n".join(rows) + "\n"
+import sys
+if "--write" in sys.argv:
+    p = "/verif/DESIGN.md"
+    s = open(p).read()
+    a = s.index("<!-- SEEDTABLE -->")
+    b = s.index("<!-- /SEEDTABLE -->")
+    s = s[:a] + "<!-- SEEDTABLE -->\n" + table + s[b:]
+    open(p, "w").write(s)
+    print("DESIGN.md table updated: %d rows" % len(rows))
+else:
+    print(table)
